@@ -35,7 +35,10 @@ def step_items(props, tier, flavours=FLAVOURS, policies=POLICIES, ops=('get', 'i
                     for fw in fws:
                         if fw is not None and op == 'get': continue
                         if need and not need(fl, pol, op, L, T, M, fw): continue
-                        for n in _n_range(pol, tier, op):
+                        ns = list(_n_range(pol, tier, op))
+                        # two victims out of three residents (ranks shift between the evictions): rank-based scores under memory pressure
+                        if op == 'insert_with_memory' and pol in ('ARC', 'TLRU') and (L, T, M) == (0, 0, 1) and fw is None and 3 not in ns: ns.append(3)
+                        for n in ns:
                             if L == 0 and M == 0 and n > 2 and tier == 'quick' and op != 'get': continue
                             out.append(dict(kind='step', flavour=fl, policy=pol, limit=bool(L), ttl=bool(T), mem=bool(M), fw=fw, n=n, op=op, props=list(props)))
     return out
@@ -92,10 +95,15 @@ def inv_items(props, tier):
     for kind, name, unused in [('tag', 't1', ['g_tag1']), ('tag', 't1', ['a_tag1_ev1', 'g_tag12']), ('dep', 'g_tag1', ['a_dep_tag2']), ('cache', 'custom_g', ['g_named']),
                                ('event', 'e1', ['g_ev1']), ('tag', 't2', ['g_tag1', 'a_dep_tag2'])]:
         out.append(dict(kind='inv', mode='group', kind2=kind, name=name, unused=unused, props=list(props)))
+    # caches that were used but whose calls stored nothing (Err / rejected): they count, and stay registered
+    for kind, name, M2 in [('tag', 't1', ['a_res_tag1', 'g_res_tag1', 'g_tag1']), ('event', 'e1', ['a_cif_ev1', 'g_cif_ev1', 'g_tag1']), ('dep', 'g_tag1', ['a_res_dep', 'g_tag1']),
+                           ('cache', 'a_res_tag1', ['a_res_tag1', 'g_tag1']), ('cache', 'res_dep_a', ['a_res_dep']), ('cache', 'a_cif_ev1', ['a_cif_ev1', 'g_res_tag1'])]:
+        out.append(dict(kind='inv', mode='group', kind2=kind, name=name, subjects=M2, nfill=1, props=list(props)))
     withs = [('g_tag12', ['g_tag12', 'g_tag1', 'a_nometa'], 3), ('g_tag1', ['g_tag1', 'g_nometa'], 2), ('a_nometa', ['g_tag12', 'a_nometa'], 2), ('a_tag1_ev1', ['a_tag1_ev1', 'g_ev1'], 2),
              ('custom_g', ['g_named', 'a_named'], 2), ('g_named', ['g_named', 'a_named'], 2), ('nothing_registered', ['g_tag1', 'a_nometa'], 2), ('t_tag1', ['t_tag1', 'g_tag1'], 2),
              ('g_fifo_l2', ['g_fifo_l2'], 2), ('a_lru_l2', ['a_lru_l2'], 2), ('g_ttl60_fifo_l3', ['g_ttl60_fifo_l3'], 3), ('a_ttl60_fifo_l3', ['a_ttl60_fifo_l3'], 3),
-             ('a_arc_l4', ['a_arc_l4'], 4), ('g_arc_l4', ['g_arc_l4'], 4), ('a_tlru_l4', ['a_tlru_l4'], 3), ('g_lfu_l4', ['g_lfu_l4'], 3)]
+             ('a_arc_l4', ['a_arc_l4'], 4), ('g_arc_l4', ['g_arc_l4'], 4), ('a_tlru_l4', ['a_tlru_l4'], 3), ('g_lfu_l4', ['g_lfu_l4'], 3),
+             ('a_mem32_arc', ['a_mem32_arc'], 3), ('a_mem32_tlru', ['a_mem32_tlru'], 3), ('g_mem32_arc', ['g_mem32_arc'], 3), ('a_res_tag1', ['a_res_tag1', 'g_cif_ev1'], 2)]
     if tier == 'thorough':
         withs += [('g_tag12', ['g_tag12'], 3), ('a_arc_ttl9_l3', ['a_arc_ttl9_l3'], 3), ('g_mem1kb', ['g_mem1kb'], 3), ('a_mem1kb', ['a_mem1kb'], 3), ('m_ref', ['m_ref'], 3)]
     for name, subs, nf in withs:
@@ -223,7 +231,7 @@ def items_for(prop, tier):
         from .vc_est import CASES
         return step_items(['C05'], tier, ops=('insert_with_memory',)) + [dict(kind='est', case=c, n=n, props=['C05']) for c in CASES for n in ((0, 2) if c in ('Vec', 'slice') else (2,))] + wrap_items(['C05'], tier, pred=lambda r: r['group'] in ('mem', 'res', 'cif') )
     if p == 'C06': return step_items(['C06'], tier, ops=('get', 'insert'), need=lambda fl, pol, op, L, T, M, fw: T or op == 'insert')
-    if p == 'C07': return step_items(['C07'], tier, policies=['FIFO', 'LRU'])
+    if p == 'C07': return step_items(['C07'], tier, policies=['FIFO', 'LRU']) + [x for x in cconc_items(['C07'], tier) if x['policy'] == 'LRU' and any(op[0] == 'get' for pr in x['progs'] for op in pr)]
     if p == 'C08': return step_items(['C08'], tier, policies=['LFU', 'ARC', 'TLRU']) + saturation_items(['C08'])
     if p == 'C15':
         c = conc_items(['C15'], tier, want=lambda pn, it: pn in ('same|same', 'call|call', 'fill|inv_with', 'fill|inv_cache'))
